@@ -6,7 +6,13 @@ package main
 import (
 	"errors"
 	"fmt"
+	"strconv"
+	"strings"
 	"time"
+
+	"github.com/form3tech-oss/f1/v2/internal/verifshim/vrt"
+	"github.com/form3tech-oss/f1/v2/internal/verifshim/vtime"
+	f1testing "github.com/form3tech-oss/f1/v2/pkg/f1/testing"
 
 	"github.com/form3tech-oss/f1/v2/internal/metrics"
 	"github.com/form3tech-oss/f1/v2/internal/options"
@@ -133,11 +139,104 @@ func decider(s, f, d uint64, errs string, ign bool, mf uint64, mfr int) string {
 	return "rate+max-failures"
 }
 
+// cliSuite: the exit status of the real `f1 run constant` command (an error
+// returned by the cobra command) follows the same rule, for whole runs in
+// virtual time with scripted outcomes.
+func cliSuite(full bool) hlib.Suite {
+	return hlib.Suite{Name: fmt.Sprintf("cli-exit-status/full=%v", full), Weight: 2, Run: func(r *hlib.Rec) {
+		mfs := []uint64{0, 1, 2}
+		rates := []int{0, 33, 50}
+		maxN := 2
+		if full {
+			maxN = 3
+			rates = []int{0, 1, 33, 50, 99}
+		}
+		for ns := 0; ns <= maxN; ns++ {
+			for nf := 0; nf <= maxN; nf++ {
+				if ns+nf == 0 {
+					continue
+				}
+				for _, drops := range []bool{false, true} {
+					for _, phase := range []string{"ok", "setup-fails", "teardown-fails"} {
+						for _, ign := range []bool{false, true} {
+							for _, mf := range mfs {
+								for _, mfr := range rates {
+									if !r.Mine() {
+										continue
+									}
+									if r.Expired() {
+										return
+									}
+									if !full && phase != "ok" && (mf != 0 || mfr != 0) {
+										continue
+									}
+									r.Eval()
+									args := []string{"constant", "s", "-v", "--distribution", "none", "--max-duration", "5s", "--concurrency", "1",
+										"--max-iterations", fmt.Sprint(ns + nf), "--max-failures", fmt.Sprint(mf), "--max-failures-rate", fmt.Sprint(mfr)}
+									if ign {
+										args = append(args, "--ignore-dropped")
+									}
+									if drops {
+										args = append(args, "--rate", "2/100ms") // two requests per tick, one slow worker: the second is dropped
+									} else {
+										args = append(args, "--rate", "1/100ms")
+									}
+									input := fmt.Sprintf("f1 run %s with %d passing then %d failing iterations, %s", strings.Join(args, " "), ns, nf, phase)
+									res := hlib.RunCLIScenario(args, 60*time.Second, func(t *f1testing.T) f1testing.RunFn {
+										if phase == "setup-fails" {
+											t.FailNow()
+										}
+										if phase == "teardown-fails" {
+											t.Cleanup(func() { t.FailNow() })
+										}
+										return func(t *f1testing.T) {
+											id, _ := strconv.Atoi(t.Iteration)
+											if drops {
+												vtime.Sleep(150 * time.Millisecond)
+											}
+											if id > ns {
+												t.Fail()
+											}
+										}
+									})
+									if res.Status != vrt.StOK {
+										r.Fail("C08/cli-broken", phase, res.Status.String()+": "+res.Crash+res.Detail, input)
+										continue
+									}
+									s, f, d := hlib.IterationCounts(res.Reg)
+									errs := "none"
+									if phase != "ok" {
+										errs = "setup"
+									}
+									want := refFailed(s, f, d, errs, ign, mf, mfr)
+									got := res.Err != nil
+									if got != want {
+										kind := "exit-0-but-should-fail"
+										if got {
+											kind = "error-but-should-pass"
+										}
+										r.Fail("C08/cli-exit-status", kind+"/"+decider(s, f, d, errs, ign, mf, mfr), fmt.Sprintf("command returned error=%v (%v); the run had successful=%d failed=%d dropped=%d, the documented rule says failed=%v", got, res.Err, s, f, d, want), input)
+									}
+									if drops && phase == "ok" && d == 0 {
+										r.Fail("C08/harness", "no-drops", "the drops configuration produced no drop", input)
+									}
+									r.Distinct(fmt.Sprintf("%v %s d=%v ign=%v mf=%d mfr=%d f>0=%v", want, phase, d > 0, ign, mf, mfr, f > 0))
+								}
+							}
+						}
+					}
+				}
+			}
+		}
+		r.Sample("f1 run constant s --max-iterations N --max-failures M --max-failures-rate R [--ignore-dropped] with scripted outcomes, failing setup, failing teardown")
+	}}
+}
+
 func suites(tier string) []hlib.Suite {
 	if tier == "quick" {
-		return []hlib.Suite{verdictSuite(8), spotSuite()}
+		return []hlib.Suite{verdictSuite(8), spotSuite(), cliSuite(false)}
 	}
-	return []hlib.Suite{verdictSuite(20), spotSuite()}
+	return []hlib.Suite{verdictSuite(20), spotSuite(), cliSuite(true)}
 }
 
 // spotSuite: the non-integral percentages the small grid cannot reach.
